@@ -572,7 +572,21 @@ func (h *hist) judgeEnvelope(tag string, c *conv, next *types.WorkObject) {
 		}
 		// the protocol floor (10 %% of the original) equals the bound of the maximum slip: such a conversion can never be refused
 		if c.SlipEff >= params.MaxSlip.Int64() {
-			m.Violation("prime:reverted-although-slip-bound-equals-protocol-floor:"+c.Dir+":"+side, fmt.Sprintf("%s: slip %d bp (field %d), amount %s", tag, c.SlipEff, c.SlipField, c.Amount), h.convWit(c))
+			sig := "prime:reverted-although-slip-bound-equals-protocol-floor:" + c.Dir + ":" + side
+			det := fmt.Sprintf("%s: slip %d bp (field %d), amount %s", tag, c.SlipEff, c.SlipField, c.Amount)
+			// the floor (10 %% of the original) can convert to zero units of the other ledger: the code then refunds instead of crediting zero
+			tenPct := new(big.Int).Div(new(big.Int).Mul(c.Amount, big.NewInt(10)), big.NewInt(100))
+			var fl *big.Int
+			if c.Dir == dirQuaiToQi {
+				fl = misc.QuaiToQi(p, p.ExchangeRate(), p.MinerDifficulty(), tenPct)
+			} else {
+				fl = misc.QiToQuai(p, p.ExchangeRate(), p.MinerDifficulty(), tenPct)
+			}
+			if fl.Sign() == 0 {
+				sig += ":floor-converts-to-zero-units"
+				det += fmt.Sprintf("; 10%% of the amount (%s) converts to 0 at the prime header's rate %s and miner difficulty %s", tenPct, p.ExchangeRate(), p.MinerDifficulty())
+			}
+			m.Violation(sig, det, h.convWit(c))
 		}
 		m.Eval(fmt.Sprintf("envelope:%s:reverted:%s:%s", c.Dir, c.AmountClass, side), c.Tx.Hash().Hex())
 		return
@@ -609,7 +623,11 @@ func (h *hist) judgeEnvelope(tag string, c *conv, next *types.WorkObject) {
 		m.Violation("envelope:credit-below-protocol-floor:"+c.Dir+":"+side, det, w())
 	}
 	if v.Cmp(bound) < 0 {
-		m.Violation("envelope:credited-although-slip-bound-exceeded:"+c.Dir+":"+side, det, w())
+		sig := "envelope:credited-although-slip-bound-exceeded:" + c.Dir + ":" + side
+		if afterSlip.Sign() > 0 && v.Cmp(convert(new(big.Int).Sub(afterSlip, big.NewInt(1)))) >= 0 {
+			sig += ":within-one-origin-unit"
+		}
+		m.Violation(sig, det, w())
 	}
 	m.Eval(fmt.Sprintf("envelope:%s:credited:%s:%s", c.Dir, c.AmountClass, side), c.Tx.Hash().Hex())
 	if v.Cmp(floor) == 0 {
